@@ -79,6 +79,10 @@ def gen_cases(rng, tier):
                 r = rng.random()
                 ops.append(("c0:%s" if r < 0.5 else "u0:%s" if r < 0.7 else "x0:%s") % rng.choice("abc"))
             ops += ["f0:1", "c0:d@1", "p0:1", "g0:1:4"]
+            if j % 2 == 1:
+                # a folder created early and deleted later (a gap in the database's folder row ids before a
+                # folder that still holds a secret), and a folder deleted last
+                ops = ["f0:2"] + ops + ["f0:3", "c0:b@3", "k0:2", "f0:4", "k0:4"]
             spec.append("c18 e%d%s mode=export cbe=%s out=%s hist=%s" % (j, be, be, os.path.join(wd, "e%d%s.zip" % (j, be)), "|".join(ops)))
     sp = os.path.join(wd, "export.txt")
     open(sp, "w").write("\n".join(spec) + "\n")
